@@ -131,6 +131,7 @@ func Run(cfg Config) Result {
 
 func replay(cfg Config, n node) World {
 	w := cfg.New(n.root)
+	w.Init() // a root may carry a pre-history (judged once, when the root was entered)
 	for _, op := range n.hist {
 		w.Apply(op)
 	}
